@@ -29,7 +29,8 @@ PID = "C15"
 RULE = ("Hypothesis-generated points, by construction inside the domain of the system they are given in "
     "(Cartesian: rationals, not on the z axis; cylindrical: rho>0, phi in (-pi,pi], z; spherical: r>0, theta in "
     "(0,pi), phi in (-pi,pi]; angles are rational multiples of pi or rational radians), with an attached vector "
-    "= linear combination of that system's base vectors (rational / symbolic coefficients). At every point all 6 "
+    "= linear combination of that system's base vectors (rational / symbolic coefficients; written as a plain sum or "
+    "as a symbolic / irrational common factor times a bracketed sum of two base vectors plus the third). At every point all 6 "
     "ordered pairs + same-type pairs of distinct system objects and all 6 ordered triples are judged against the "
     "harness maps X(q), q(X), dX/dq (mpmath, 60 digits, tol 1e-40 relative to 1+sum|terms|): scalar tables round "
     "trip and equal geometry, base-vector tables orthonormal/det=+1/inverse=transpose/direct=via third/equal the "
@@ -264,7 +265,11 @@ def case_strategy(draw: Any) -> Any:
     sv = [draw(_nz_rat()), draw(_nz_rat())]
     return {"sys": system, "q": q, "vec": vec, "sv": sv, "eq": draw(st.sampled_from((True, False, False, False, False, False))),
         "container": draw(st.sampled_from(("list", "list", "tuple", "generator", "map"))),
-        "fscale": draw(st.sampled_from((None, None, -60, -50, -70, 40, 0)))}
+        "fscale": draw(st.sampled_from((None, None, -60, -50, -70, 40, 0))),
+        # how the vector expression is written: a plain sum of components, or a non-numeric common factor times a
+        # bracketed sum of two base vectors plus the third (SymPy keeps such a product unexpanded)
+        "form": draw(st.sampled_from(("sum", "sum", "factored:s0", "factored:s1", "factored:sqrt2", "factored:pi"))),
+        "alone": draw(st.sampled_from((0, 1, 2)))}
 
 
 def valid(case: dict[str, Any]) -> bool:
@@ -629,7 +634,17 @@ def _judge(case: dict[str, Any]) -> list[tuple[str, str]]:
             coef_val.append(r3.frac(c[2]) * svals[c[1]])
     ssubs = {S["s"][j]: sympy.Rational(case["sv"][j]) for j in range(2)}
     eA = S[A].base_vectors(pA)
-    vA = sum((eA[i] * coef_sym[i] for i in range(3)), sympy.S.Zero)
+    form = case.get("form", "sum")
+    if form.startswith("factored:"):
+        g = form.split(":")[1]
+        g_sym = {"s0": S["s"][0], "s1": S["s"][1], "sqrt2": sympy.sqrt(2), "pi": sympy.pi}[g]
+        g_val = {"s0": svals[0], "s1": svals[1], "sqrt2": MP.sqrt(2), "pi": +MP.pi}[g]
+        alone = case.get("alone", 2)
+        inner = sum((eA[i] * coef_sym[i] for i in range(3) if i != alone), sympy.S.Zero)
+        vA = g_sym * inner + eA[alone] * coef_sym[alone]
+        coef_val = [coef_val[i] * (1 if i == alone else g_val) for i in range(3)]
+    else:
+        vA = sum((eA[i] * coef_sym[i] for i in range(3)), sympy.S.Zero)
     want_cart = [sum(coef_val[i] * frames[A][i][k] for i in range(3)) for k in range(3)]
     vconv: dict[str, Any] = {}
 
@@ -651,7 +666,7 @@ def _judge(case: dict[str, Any]) -> list[tuple[str, str]]:
             got = cart_components(vB, B)
             if not vec_close(got, want_cart):
                 bad(f"vector-components:{tag}",
-                    f"convert_vector {tag} of {case['vec']} at {case['q']}: Cartesian components {_show(got)} instead of {_show(want_cart)}; result {str(vB)[:200]}")
+                    f"convert_vector {tag} of {case['vec']} (written as {form}) at {case['q']}: Cartesian components {_show(got)} instead of {_show(want_cart)}; result {str(vB)[:200]}")
                 return
             vconv[B] = vB
 
@@ -821,6 +836,7 @@ def classify(case: dict[str, Any]) -> tuple[bool, list[str]]:
         labels.append("vec-symbolic-coefficient")
     if case.get("eq"):
         labels.append("equals-tried")
+    labels.append("vector-form=" + case.get("form", "sum").split(":")[0])
     return off and nz >= 2, labels
 
 
